@@ -15,6 +15,7 @@ import (
 // VerifC20Deltify drives Engine.Deltify with a transmitter that fails at an
 // arbitrary call (once, or from then on).
 func VerifC20Deltify() {
+	verifPreferSolver("cvc5")
 	n := vParam("maxlen", 3)
 	baseLen := vRange(0, n)
 	targetLen := vRange(0, n)
@@ -175,6 +176,7 @@ func (r *verifC20Receiver) finalize() error {
 }
 
 func VerifC20Transmit() {
+	verifPreferSolver("cvc5")
 	n := vParam("tlen", 2)
 	nfiles := vRange(1, vParam("tfiles", 1))
 	verifC20FS = make(map[string]*verifC20File)
